@@ -20,7 +20,7 @@ FUNCTIONS = ["SoftwareSwitchBase._process_actions_for_packet/_action_* (12)/_out
              "pox.lib.packet ethernet/vlan/ipv4/tcp/udp/icmp/arp parse, hdr, pack, checksum"]
 BOUNDS = {}
 OUTSIDE = ["action lists longer than 3", "QinQ, IP options beyond one 4-byte word, TCP options", "UDP ports of protocols POX re-parses (67, 68, 53, 5353, 520, 4789)",
-           "set_nw_tos arguments whose two ECN bits differ from the packet's (OpenFlow 1.0 is ambiguous about them)", "frames with Ethernet padding"]
+           "set_nw_tos arguments whose two ECN bits differ from the packet's (OpenFlow 1.0 is ambiguous about them)", "Ethernet padding behind IP / ARP payloads (802.3 / LLC frames with padding are inside)"]
 ASSUMPTIONS = ["reference checksums use pox.lib.packet.packet_utils.checksum (verified against RFC 1071 in C14)"]
 
 SPECIAL_UDP = (67, 68, 53, 5353, 520, 4789)
@@ -131,6 +131,13 @@ def make_frame(ctx, pu, kind, tagged, npay):
          list(ctx.bytes('ipsrc', 4)) + list(ctx.bytes('ipdst', 4)) + opts
     b += [0x08, 0x00] + ip + seg
     f = Frame(b, tagged, 'ip', l4, 5 + len(opts) // 4)
+  elif kind == 'llc_pad':
+    # 802.3 frame (length field, LLC header, payload) padded to a longer frame, like a BPDU padded to the Ethernet minimum: the length field
+    # counts the LLC header and payload only; the padding travels with the frame
+    dsap = ctx.int('dsap', 0, 255); ssap = ctx.int('ssap', 0, 255)
+    ctx.assume(ctx.Not(ctx.And((dsap & 0xfe) == 0xaa, (ssap & 0xfe) == 0xaa)))
+    b += be(3 + npay, 2) + [dsap, ssap, 0x03] + pay + list(ctx.bytes('padding', 8))
+    f = Frame(b, tagged, 'other', None)
   elif kind == 'arp':
     b += [0x08, 0x06] + [0, 1, 8, 0, 6, 4, 0, ctx.int('arpop', 1, 2)] + list(ctx.bytes('arpbody', 20))
     f = Frame(b, tagged, 'arp', None)
@@ -326,6 +333,10 @@ def obligations(tier):
       cases.append(dict(kind=k, tagged=t, codes=[c, A_OUT]))
     cases.append(dict(kind=k, tagged=t, codes=[A_OUT]))
     cases.append(dict(kind=k, tagged=t, codes=[A_ENQ]))
+  # padded 802.3 / LLC frames
+  for c in (A_DLDST, A_VID) + ((A_DLSRC, A_STRIP) if thorough else ()): cases.append(dict(kind='llc_pad', tagged=False, codes=[c, A_OUT]))
+  cases.append(dict(kind='llc_pad', tagged=False, codes=[A_OUT]))
+  if thorough: cases.append(dict(kind='llc_pad', tagged=True, codes=[A_OUT]))
   # IPv4 options present (IHL 6): the header checksum covers them, the transport header starts after them
   for k in ('udp_opt', 'tcp_opt') + (('icmp_opt',) if thorough else ()):
     for c in (A_NWDST, A_TOS, A_TPSRC) + ((A_NWSRC, A_TPDST, A_DLDST, A_VID) if thorough else ()): cases.append(dict(kind=k, tagged=False, codes=[c, A_OUT]))
